@@ -118,6 +118,42 @@ func c28(c *Ctx) {
 			c.Expect(len(callsIn(f, CalleeX("strings", "EqualFold"))) >= 1, nil, f, "case-insensitive-fallback", name+" has no case-insensitive comparison for maps not built with the helpers")
 		}
 	})
+	c.Ob("value-lookup-complete", "R3", "ValueFromOutgoingContext / ValueFromIncomingContext: when the exact (lower-cased) lookup in the base metadata misses, the case-insensitive scan of the base metadata is made on every path before the function returns — also when appended pairs already matched — so the single-key readers see the same base values as the full readers", 2, func() {
+		for _, name := range []string{"ValueFromOutgoingContext", "ValueFromIncomingContext"} {
+			f := c.fn(mdp, name)
+			var exact *ssa.Lookup
+			for _, in := range instrsWhere(f, func(in ssa.Instruction) bool {
+				l, ok := in.(*ssa.Lookup)
+				if !ok || !l.CommaOk {
+					return false
+				}
+				_, m := l.X.Type().Underlying().(*types.Map)
+				return m
+			}) {
+				exact = in.(*ssa.Lookup)
+			}
+			var scan ssa.Instruction
+			for _, in := range instrsWhere(f, func(in ssa.Instruction) bool {
+				r, ok := in.(*ssa.Range)
+				if !ok {
+					return false
+				}
+				_, m := r.X.Type().Underlying().(*types.Map)
+				return m
+			}) {
+				scan = in
+			}
+			if !c.Expect(exact != nil && scan != nil, nil, f, name+":lookup-then-scan", "expected an exact lookup and a case-insensitive scan of the base metadata") {
+				continue
+			}
+			hit := Truth(ExtractOf(func(v ssa.Value) bool { return v == ssa.Value(exact) }, 1), true)
+			c.MustPass(name+":miss-always-scans-the-base-metadata", pathQuery{Fn: f, Starts: []ssa.Instruction{exact}, Barrier: func(in ssa.Instruction) bool { return in == scan }, Target: isReturn,
+				EdgeBlock: func(from, to *ssa.BasicBlock) bool {
+					_, ok := hasFact(edgeFacts(from, to), hit)
+					return ok
+				}}, scan)
+		}
+	})
 	c.Ob("copy-out", "R8", "context readers and Copy: every slice returned, and every slice stored into the returned map, is freshly allocated; AppendToOutgoingContext stores copies of the pairs and of the list of earlier appends", 8, func() {
 		for _, name := range []string{"FromIncomingContext", "FromOutgoingContext", "MD.Copy", "Join", "ValueFromIncomingContext", "ValueFromOutgoingContext"} {
 			f := c.fn(mdp, name)
